@@ -267,6 +267,10 @@ func (c *Ctx) Exec(desc interface{}, f func() *Failure) {
 
 // Report records a failure for the case described by desc.
 func (c *Ctx) Report(desc interface{}, fail *Failure) {
+	if len(fail.Msg) > 24000 {
+		// cells of megabytes make unreadable (and huge) reports: keep the head and the tail
+		fail.Msg = fail.Msg[:16000] + fmt.Sprintf(" ...[%d bytes left out]... ", len(fail.Msg)-20000) + fail.Msg[len(fail.Msg)-4000:]
+	}
 	raw, err := json.Marshal(desc)
 	if err != nil {
 		raw, _ = json.Marshal(fmt.Sprintf("unserialisable descriptor: %v", err))
